@@ -6,6 +6,7 @@ drop). Every path from entry to a return must total 0 (or the function's declare
 back edge must be reached with the balance of its header; on every unwind edge out of a call that
 can run user code the balance must be 0 when `resume` is reached.
 """
+import re
 from . import util as U
 from . import ordering as O
 from . import progress as P
@@ -355,6 +356,9 @@ def user_call_kind(t):
         a = (c.get('args') or [''])[0]
         if a in ('T', 'Self') or '<T' in a or 'T>' in a or ' T' in a or a.endswith('Guard<T, S>'):
             return 'drop of a generic value'
+        if re.fullmatch(r'[A-Z][A-Za-z0-9]*', a or ''):
+            # a bare type parameter (`current: C` handed in by value: a Guard, an Arc — its destructor may be the pointee's)
+            return 'drop of a value of the caller\'s type %s' % a
     return None
 
 
@@ -509,6 +513,11 @@ def analyse(fx, b, col, rule='LEDGER', unwind_rule='LEDGER-UNWIND', declared_exi
             # pure predicates of one value asked twice (`if swapped.is_err() {..} ..; if swapped.is_err() {..}`) answer the same:
             # a path that takes contradicting outcomes is infeasible
             if k == 'switch':
+                # a value built earlier on this very path (a flag, `Some(x)` / `None`, a tuple of them) decides the branch
+                from .mir import path_env, _ev_switch
+                want = _ev_switch(path_env(b, path), t)
+                if want is not None and want != succ:
+                    continue
                 contradiction = False
                 for pk, pv in lg.pure_predicates(bb, succ):
                     if any(isinstance(x, tuple) and len(x) == 2 and x[0] == pk and x[1] != pv for x in napplied):
@@ -706,10 +715,12 @@ def rule_return_slot(fx, col):
     borrow slot stays occupied, a count is never given back."""
     lib = fx.lib
     def carries(ty):
-        return 'HybridProtection<' in ty or ty.startswith('Guard<') or ty == 'T' or 'Protected' in ty or ty.startswith('std::option::Option<T>')
+        # (also inside a wrapper: Result<T, Guard<..>>, Option<T>, a tuple)
+        return 'HybridProtection<' in ty or bool(re.search(r'(^|[<(, ])Guard<', ty)) or ty == 'T' or 'Protected' in ty or ty.startswith('std::option::Option<T>')
     n = 0
-    for b in lib.bodies:
-        if not carries(b.local_ty(0)) or _is_refcnt_impl(b):
+    # (helpers that are spliced into their callers for the other rules are functions with a return place of their own: looked at here)
+    for b in lib.all_bodies:
+        if not carries(b.local_ty(0)) or _is_refcnt_impl(b) or '::tests' in b.fname:
             continue
         n += 1
         asg = [(bb, None) for bb in range(b.n) if not b.is_cleanup(bb) for st in b.stmts(bb) if st['k'] == 'assign' and st['dest']['local'] == 0 and not st['dest']['proj']]
